@@ -234,6 +234,35 @@ func runC10(c *Ctx, idx int, o *Obs) {
 		o.Ev("used_object_runs", 2)
 	}
 
+	// ---- a reference object that was re-rooted at another inner node after parsing (branch ids no longer follow the
+	// order in which branches are listed, parents no longer come first): same supports, split by split
+	if !refRooted && idx%3 == 1 {
+		mkRef := func() *tree.Tree {
+			t := mustParse(refText)
+			var cand []*tree.Node
+			for _, nd := range innerNodes(t) {
+				if nd.Nneigh() >= 3 {
+					cand = append(cand, nd)
+				}
+			}
+			if len(cand) > 0 {
+				t.Reroot(cand[(idx/3)%len(cand)])
+			}
+			return t
+		}
+		rr := mkRef()
+		if err := support.FBP(rr, treesChan(boots), 1, nil); o.Check(err == nil, "fbp_error", "re-rooted reference object: "+fmt.Sprint(err), inp) {
+			judge("FBP (reference object re-rooted after parsing)", rr, wantF, nil)
+		}
+		rr = mkRef()
+		if err := rr.ReinitIndexes(); err == nil {
+			if _, err := support.TBE(rr, treesChan(boots), 1, false, false, false, 0.3, nil, nil); o.Check(err == nil, "tbe_error", "re-rooted reference object: "+fmt.Sprint(err), inp) {
+				judge("TBE (reference object re-rooted after parsing)", rr, wantT, nil)
+			}
+		}
+		o.Ev("rerooted_reference_object", 1)
+	}
+
 	// ---- the same reference object through several computations in a row: each result is the definition's,
 	// whatever the previous computation left on the object (supports, ids, indexes)
 	if idx%3 == 0 {
